@@ -137,7 +137,7 @@ pub fn run_line(check: &dyn Check, verif_seed: u64, idx: u64, thorough: bool, wa
 
 pub fn worker(check: &dyn Check, verif_seed: u64, thorough: bool, w: u64, nw: u64, n: u64, only: Option<Vec<u64>>) {
     sim::install_panic_hook();
-    set_rlimit_as(3 << 30);
+    set_rlimit_as(1 << 30);
     let stdout = std::io::stdout();
     let idxs: Vec<u64> = match only {
         Some(v) => v,
@@ -298,7 +298,7 @@ pub fn minimize(check: &dyn Check, verif_seed: u64, idx: u64, thorough: bool, cl
 /// run is clean, 2 if something else happens.
 pub fn replay(checks: &[&'static dyn Check], path: &str) -> i32 {
     sim::install_panic_hook();
-    set_rlimit_as(3 << 30);
+    set_rlimit_as(1 << 30);
     let Ok(s) = std::fs::read_to_string(path) else {
         eprintln!("cannot read {}", path);
         return 2;
@@ -453,6 +453,7 @@ pub fn check_cmd(check: &'static dyn Check, thorough: bool) -> i32 {
         }));
     }
     let mut crashed: Vec<u64> = Vec::new();
+    let mut stopped_after_crashes = false;
     for (i, r) in readers.into_iter().enumerate() {
         let lines = r.join().unwrap_or_default();
         for l in &lines {
@@ -460,24 +461,38 @@ pub fn check_cmd(check: &'static dyn Check, thorough: bool) -> i32 {
         }
         let st = children[i].wait().ok();
         if !st.map(|s| s.success()).unwrap_or(false) {
-            // the worker died (abort / kill): the index it had announced and not finished is the culprit
-            let dead: Vec<u64> = agg.started.difference(&agg.finished).copied().filter(|x| x % nw == i as u64).collect();
-            if dead.is_empty() {
-                agg.harness_errors.push(format!("worker {} exited with {:?} without an unfinished run", i, st));
-            }
-            crashed.extend(dead.iter().copied());
-            // run the rest of that worker's slice in a fresh process
-            if let Some(&d) = dead.first() {
-                let rest: Vec<u64> = (0..n).filter(|x| x % nw == i as u64 && *x > d).collect();
-                if !rest.is_empty() {
-                    let mut c = spawn_worker(prop, thorough, vs, i as u64, nw, Some(&rest));
-                    let out = c.stdout.take().unwrap();
-                    for l in std::io::BufReader::new(out).lines().map_while(Result::ok) {
-                        if let Ok(v) = serde_json::from_str::<Value>(&l) {
-                            absorb(&mut agg, &known, prop, &v);
-                        }
+            // the worker died (abort / kill): the index it had announced and not finished is the culprit;
+            // the rest of its slice runs in fresh processes, as often as it takes
+            let mut respawns = 0;
+            loop {
+                let dead: Vec<u64> = agg.started.difference(&agg.finished).copied().filter(|x| x % nw == i as u64 && !crashed.contains(x)).collect();
+                if dead.is_empty() {
+                    if respawns == 0 {
+                        agg.harness_errors.push(format!("worker {} exited with {:?} without an unfinished run", i, st));
                     }
-                    let _ = c.wait();
+                    break;
+                }
+                crashed.extend(dead.iter().copied());
+                let last = *dead.iter().max().unwrap();
+                let rest: Vec<u64> = (0..n).filter(|x| x % nw == i as u64 && *x > last).collect();
+                if rest.is_empty() {
+                    break;
+                }
+                if crashed.len() >= 10 {
+                    // enough evidence: the violation is reported, the rest of the slice is not explored
+                    stopped_after_crashes = true;
+                    break;
+                }
+                respawns += 1;
+                let mut c = spawn_worker(prop, thorough, vs, i as u64, nw, Some(&rest));
+                let out = c.stdout.take().unwrap();
+                for l in std::io::BufReader::new(out).lines().map_while(Result::ok) {
+                    if let Ok(v) = serde_json::from_str::<Value>(&l) {
+                        absorb(&mut agg, &known, prop, &v);
+                    }
+                }
+                if c.wait().map(|s| s.success()).unwrap_or(false) {
+                    break;
                 }
             }
         }
@@ -617,7 +632,7 @@ pub fn check_cmd(check: &'static dyn Check, thorough: bool) -> i32 {
         }
         return 2;
     }
-    if agg.evaluations < n {
+    if agg.evaluations + (crashed.len() as u64) < n && !stopped_after_crashes {
         eprintln!("harness error: only {} of {} runs reported", agg.evaluations, n);
         return 2;
     }
